@@ -665,6 +665,9 @@ def run_queue_stress(ctx, res):
 
 def run(ctx, res):
     t0 = time.time()
+    if not (core.GEN / "SendSteps.v").exists():
+        # the translator failed closed: an existing runner binary is stale -> monitors only
+        ctx.model = None
     xin, xout = run_races(ctx, res)
     t1 = time.time()
     xin2, xout2 = run_queue_sequential(ctx, res)
